@@ -152,6 +152,15 @@ def gen_cases(seed, tier, consts):
                 break
         if found:
             cases.append(("rollmod", "R %d %s" % (nb, vlib.hexs(bytes([1]) + found + bytes([2])))))
+    # block-size choice: calculate_block_size against Delta.block_size_for (clamp of the integer root) -- every
+    # magnitude, perfect squares and their neighbours, both clamp edges
+    bsz = [0, 1, 511 * 511, 512 * 512 - 1, 512 * 512, 512 * 512 + 1, 513 * 513 - 1, 513 * 513, 131072 * 131072 - 1,
+           131072 * 131072, 131072 * 131072 + 1, 131071 * 131071, 131071 * 131071 - 1, 2 ** 52, 2 ** 53 + 1, 2 ** 62 - 1]
+    for _ in range(150 if q else 3000):
+        k = r.randrange(1, 140000)
+        bsz += [k * k - 1, k * k, k * k + 1, r.randrange(0, 2 ** r.randrange(1, 62))]
+    for n in bsz:
+        cases.append(("blocksize", "B %d" % max(0, n)))
     # wire: through the real sy-remote (checksums + apply-delta), compressed and raw
     for _ in range(30 if q else 300):
         bs = r.choice([1, 4, 16, 64, 512])
@@ -191,6 +200,11 @@ def oracle(case, out):
     if t[0] == "R":
         if kv.get("rolled") != kv.get("direct") and len(t[2]) // 2 >= int(t[1]):
             return False, "rolled digest differs from direct"
+        return True, ""
+    if t[0] == "B":
+        b = int(kv.get("bsz", "-1"))
+        if not (0 < b <= 131072 and b * 255 < 2 ** 32):
+            return False, "block size %d outside the range the rolling checksum is proved for" % b
         return True, ""
     if t[0] == "W":
         if kv.get("wire") != t[4]:
